@@ -66,6 +66,7 @@ theorem parseField_eq_action (m : ClassModel) (c : Class) (f : Field) :
     · simp [parseField, shapeOf, Shape.action, emitAttrs, Kind.target, hm]
     · have hm' : mapped m t = false := by simpa using hm
       simp [parseField, shapeOf, Shape.action, emitAttrs, Kind.target, hm']
+  | custom o => simp [parseField, shapeOf, Shape.action, emitAttrs, Kind.opt]
 
 theorem assocOf_eq_action (q : Quirks) (m : ClassModel) (c : Class) (f : Field) :
     assocOf q m c f = emitAssocs q m (shapeOf m f.kind).action c f := by
